@@ -409,14 +409,18 @@ def sortedSet (xs : List Str) : List Str := dedupSorted (isort strLe xs)
 def dictUpdate (old new : Changes) : Changes :=
   old.filter (fun kv => (new.lookup kv.1).isNone) ++ new
 
+/-- `new_sections[k] = sorted(set(new_sections[k] + sections.get(k, [])))` when both are lists -/
+def mergeListKey (sections : Changes) (k : Str) (n : Changes) : Changes :=
+  match n.lookup k with
+  | some (.list l) =>
+    n.map (fun kv => if kv.1 == k then
+      (k, Val.list (sortedSet (l ++ ((sections.lookup k).getD (.list [])).asList))) else kv)
+  | _ => n
+
 /-- one round of the loop in `parse_mypy_comments`: `new` is what `parse_section` returned for one comment
     line (it always carries both error-code lists) -/
 def mergeInlineStep (sections new : Changes) : Changes :=
-  let merged (k : Str) (n : Changes) : Changes :=
-    match n.lookup k with
-    | some (.list l) => n.map (fun kv => if kv.1 == k then (k, Val.list (sortedSet (l ++ ((sections.lookup k).getD (.list [])).asList))) else kv)
-    | _ => n
-  dictUpdate sections (merged kDisable (merged kEnable new))
+  dictUpdate sections (mergeListKey sections kDisable (mergeListKey sections kEnable new))
 
 /-- `parse_mypy_comments` over the already parsed comment lines, first line first -/
 def mergeInline (lines : List Changes) : Changes :=
